@@ -476,6 +476,11 @@ def gen_script(rng, max_ops, profile):
             lines += [live_cmd, stale_cmd] if rng.chance(1, 2) else [stale_cmd, live_cmd]
             lines.append('unlock')
             st.comps[b] = closure(set(st.comps[b]) | {p_})
+        elif choice == 'runtyped':
+            # the typed jobs of the driver (PerEntityJob<T>): their arguments are palette types 0, 1, 2, 4
+            if depth == 0 and all(p_ in pals for p_ in (0, 1, 2, 4)):
+                mode = rng.below(2)
+                lines.append('runtyped %d %d%s' % (rng.below(4), mode, (' %d' % rng.range(1, 6)) if mode and rng.chance(1, 2) else ''))
         elif choice == 'runjob':
             if depth == 0 and njobs:
                 mode = rng.below(2)
@@ -602,7 +607,7 @@ def profile(name):
             p['jobs'] = [{'reqs': [(0, 1)], 'check': []}, {'reqs': [(0, 0), (1, 3)], 'check': []}, {'reqs': [(0, 1), (2, 1)], 'check': []},
                          {'reqs': [(0, 1)], 'check': [0]}, {'reqs': [(1, 0), (0, 2)], 'check': [1]}]
         p['weights'] = {'create': 26, 'destroynow': 9, 'destroy': 3, 'assign': 8, 'remove': 6, 'set': 12, 'get': 6,
-                        'clone': 2, 'update': 6, 'cleararch': 1, 'lock': 0, 'unlock': 0, 'runjob': 22, 'burst': 0 if name == 'C04' else 7, 'bulk': 0 if name == 'C04' else 2, 'sparse': 3}
+                        'clone': 2, 'update': 6, 'cleararch': 1, 'lock': 0, 'unlock': 0, 'runjob': 22, 'burst': 0 if name == 'C04' else 7, 'bulk': 0 if name == 'C04' else 2, 'sparse': 3, 'runtyped': 8}
     elif name == 'C13':
         p['deps'] = 100
         p['pals'] = [0, 1, 2, 3, 5, 8, 9]
